@@ -45,6 +45,8 @@ type Value struct {
 type IterVal struct {
 	Map     Value
 	Visited Term // (Array K Bool)
+	Count   Term // number of keys visited so far (Int)
+	Dom0    Term // domain of the map when the iteration started (Array K Bool)
 	id      int
 	ord     int
 }
